@@ -183,9 +183,9 @@ func cmdCheck(args []string) int {
 		*tier = "quick"
 	}
 	if *timeout == 0 {
-		*timeout = 40
+		*timeout = 60
 		if *tier == "thorough" {
-			*timeout = 120
+			*timeout = 180
 		}
 	}
 	seed := 0
@@ -228,6 +228,10 @@ func cmdCheck(args []string) int {
 				inconclusive = append(inconclusive, "outside-reach "+err.Error())
 			}
 		}
+	}
+	// interface-method contracts used: every implementation under contract must restate their postconditions
+	for _, key := range sortedKeys(e.ifaceUsed) {
+		e.obligs = append(e.obligs, ifaceRefinement(l, key)...)
 	}
 	extra := propertyExtras(e, l, prop)
 	e.obligs = append(e.obligs, extra...)
@@ -350,6 +354,7 @@ func cmdCheck(args []string) int {
 		trusted = append(trusted, n)
 	}
 	assumptions = append(assumptions, propertyAssumptions(prop)...)
+	assumptions = append(assumptions, ifaceAssumed...)
 	var used []string
 	for _, k := range sortedKeys(e.funcsUsed) {
 		st := "proved under its own contract check"
@@ -520,4 +525,69 @@ func scanMatches(addr ssa.Value, sc storeScan) bool {
 		}
 	}
 	return false
+}
+
+// ifaceRefinement: a structural obligation per implementation of an interface method whose contract was used
+// at a dynamic call: each `ensures` of the interface contract appears (textually) in an `ensures` of the
+// implementation's contract, and the implementation is under contract at all.
+var ifaceAssumed []string
+
+func ifaceRefinement(l *Loaded, key string) []*Oblig {
+	ic := l.iface[key]
+	var out []*Oblig
+	parts := strings.Split(key, ".")
+	sp := l.spkgs[ic.ct.Pkg]
+	if sp == nil {
+		return nil
+	}
+	it, _ := sp.Type(parts[1]).Type().Underlying().(*types.Interface)
+	if it == nil {
+		return nil
+	}
+	norm := func(s string) string { return strings.Join(strings.Fields(s), " ") }
+	for _, mem := range sp.Members {
+		t, ok := mem.(*ssa.Type)
+		if !ok {
+			continue
+		}
+		if _, isIface := t.Type().Underlying().(*types.Interface); isIface {
+			continue
+		}
+		pt := types.NewPointer(t.Type())
+		if !types.Implements(pt, it) && !types.Implements(t.Type(), it) {
+			continue
+		}
+		fn := l.prog.LookupMethod(pt, sp.Pkg, parts[2])
+		if fn == nil {
+			continue
+		}
+		name := "iface-refine/" + funcKey(fn)
+		ob := &Oblig{Name: name, Kind: "scan", Expect: "unsat", Goal: BoolC(true), Src: "contract of " + funcKey(fn) + " restates the postconditions of " + key}
+		ct := l.bound[fn]
+		if ct == nil && l.prog.MethodSets.MethodSet(t.Type()).Lookup(sp.Pkg, parts[2]) != nil {
+			if f2 := l.prog.LookupMethod(t.Type(), sp.Pkg, parts[2]); f2 != nil {
+				ct = l.bound[f2]
+			}
+		}
+		if ct == nil || ct.Flags["trusted"] {
+			// not under contract: the interface postconditions are an assumption for this implementation
+			ifaceAssumed = append(ifaceAssumed, funcKey(fn)+" is not under contract: the postconditions of "+key+" are assumed for it")
+			continue
+		} else {
+			for _, en := range ic.ct.Ensures {
+				found := false
+				for _, ie := range ct.Ensures {
+					if strings.Contains(norm(ie.Src), norm(en.Src)) {
+						found = true
+					}
+				}
+				if !found {
+					ob.Goal = BoolC(false)
+					ob.Src += ": missing `" + en.Src + "`"
+				}
+			}
+		}
+		out = append(out, ob)
+	}
+	return out
 }
